@@ -108,6 +108,13 @@ def C20_1_3(ctx, facts):
             return False
         rr = f.roots(lab.place)
         return any(r.kind == "call" and r.site.matches(r"Extensions.*::get_mut$") for r in rr) and any(r.kind == "call" and r.site.matches(r"Option.*::and_then$|str.*::parse$") for r in rr)
+    # and the converse: without a (parsable) server name nothing is let through - whatever the request's host looks like
+    ne = f.edges_where(no_sni)
+    ctx.floor("sni::handle|no-sni-edge", len(ne), 1, "edge on which the connection has no server name")
+    for (a_, b_) in ne:
+        ok, w = f.must_pass(b_, f.returns, set(missing))
+        ctx.check(ok, "sni::handle|no-sni-always-rejected", "a request on a connection without server name is always rejected with MissingSNI",
+                  "a request can pass although the client sent no server name", f.where(a_), f.path_desc(w))
     for b in missing:
         ok, w = f.guarded(b, no_sni)
         ctx.check(ok, "sni::handle|missing-only-without-sni", "MissingSNI is returned only when no (parsable) server name was sent", "MissingSNI reachable although a server name exists", f.where(b), f.path_desc(w))
